@@ -70,6 +70,7 @@ type JSGen struct {
 	Stats                  map[string]int
 	usedNames              map[string]bool
 	asyncStarted           bool
+	deferred               []string // statements appended at the very end of the program
 }
 
 var namePool = []string{"a", "b", "c", "d", "e", "f", "g", "h", "i", "j", "k", "t", "n", "r", "s", "x", "y", "z", "$", "_", "x2", "x3", "a2", "b2", "foo", "bar", "of", "async", "get", "set", "type", "from", "as", "let2", "yield2", "await2", "default2", "undefined2", "NaN2", "e2", "t2", "A", "B", "C", "x10"}
@@ -86,7 +87,7 @@ func (g *JSGen) stat(k string) { g.Stats[k]++ }
 // Lowered async/await and async generators legitimately take a different number of microtask turns
 // (documented exclusion), so two concurrent chains could interleave differently.
 func (g *JSGen) asyncOK() bool {
-	if g.asyncStarted || g.inFunc > 0 || g.loopDepth > 0 {
+	if g.asyncStarted || g.inFunc > 0 || g.loopDepth > 0 || len(g.scopes) != 1 {
 		return false
 	}
 	g.asyncStarted = true
@@ -250,7 +251,7 @@ func (g *JSGen) Expr(depth int) string {
 	r := g.R
 	paren := func(s string) string { return "(" + s + ")" }
 	sub := func() string { return g.Expr(depth - 1) }
-	switch r.Intn(34) {
+	switch r.Intn(36) {
 	case 0, 1, 2, 3:
 		op := binOps[r.Intn(len(binOps))]
 		g.stat("bin " + op)
@@ -291,7 +292,8 @@ func (g *JSGen) Expr(depth int) string {
 				op = []string{"&&=", "||=", "??="}[r.Intn(3)]
 			}
 			if g.F.Exponent && r.Chance(1, 10) {
-				op = "**="
+				g.stat("assign **=")
+				return paren(v.name + " **= " + g.probe(sub()))
 			}
 			g.stat("assign " + op)
 			return paren(v.name + " " + op + " " + paren(sub()))
@@ -360,7 +362,20 @@ func (g *JSGen) Expr(depth int) string {
 	case 15:
 		if g.F.Exponent {
 			g.stat("pow")
-			return paren(sub()) + " ** " + paren(sub())
+			// Finite results of ** are implementation-approximated (V8 and Go's math.Pow differ by an ulp,
+			// e.g. 1000 ** 33), which the property allows. Compile-time evaluation is therefore only
+			// provoked on operands whose result is exact; otherwise the exponent goes through a probe
+			// call so that the operation happens at run time on both sides.
+			if r.Chance(1, 3) {
+				bases := []string{"0", "-0", "1", "-1", "2", "NaN", "Infinity", "-Infinity", "(-2)", "10"}
+				exps := []string{"0", "-0", "1", "2", "3", "-1", "NaN", "Infinity", "-Infinity"}
+				b, x := bases[r.Intn(len(bases))], exps[r.Intn(len(exps))]
+				if b == "10" && x == "-1" {
+					x = "2"
+				}
+				return paren(b) + " ** " + paren(x)
+			}
+			return paren(sub()) + " ** " + g.probe(sub())
 		}
 		return sub()
 	case 16:
@@ -429,6 +444,25 @@ func (g *JSGen) Expr(depth int) string {
 	case 24:
 		g.stat("comma")
 		return paren(sub() + ", " + sub())
+	case 32:
+		if g.F.BigInt {
+			// arithmetic whose operands are BigInts at run time but syntactically "number or bigint",
+			// compared strictly / loosely with numbers (exercises known-primitive-type reasoning)
+			g.stat("bigint-arith-compare")
+			b := func() string {
+				if v, ok := g.pickVar(func(v jsVar) bool { return v.kind == 7 }); ok && r.Bool() {
+					return v.name
+				}
+				return "(" + bigLits[r.Intn(len(bigLits))] + ")"
+			}
+			arith := "(" + b() + " " + []string{"*", "-", "+", "&", "|", "^", "%"}[r.Intn(7)] + " " + b() + ")"
+			if v, ok := g.pickVar(func(v jsVar) bool { return v.kind == 7 }); ok && r.Chance(1, 3) {
+				arith = v.name
+			}
+			arith = []string{"-", "~", "", "- -"}[r.Intn(4)] + arith
+			return "(" + arith + ") " + []string{"===", "!==", "==", "!=", "<", ">="}[r.Intn(6)] + " (" + []string{"0", "1", "-1", "-0", "5", "-5", "0n", "\"0\""}[r.Intn(8)] + ")"
+		}
+		return sub()
 	case 25:
 		g.stat("typeof-unbound")
 		return "typeof " + []string{"notDefinedAnywhere", "p", "Object"}[r.Intn(3)]
@@ -825,7 +859,7 @@ func (g *JSGen) Stmt(depth int) string {
 		return g.probe(g.Expr(1)) + ";\n"
 	}
 	e := func() string { return g.Expr(depth - 1) }
-	switch r.Intn(30) {
+	switch r.Intn(31) {
 	case 0, 1, 2:
 		n := g.fresh()
 		kw := []string{"var", "let", "const"}[r.Intn(3)]
@@ -833,6 +867,13 @@ func (g *JSGen) Stmt(depth int) string {
 		g.declare(jsVar{name: n, mutable: kw != "const"})
 		g.stat("decl " + kw)
 		return kw + " " + n + " = " + init + ";\n"
+	case 26:
+		if g.F.BigInt {
+			n := g.fresh()
+			g.declare(jsVar{name: n, mutable: false, kind: 7})
+			g.stat("decl bigint")
+			return "const " + n + " = " + g.probe(bigLits[r.Intn(len(bigLits))]) + ";\n"
+		}
 	case 3, 4:
 		g.stat("probe-stmt")
 		return g.probe(e()) + ";\n"
@@ -886,17 +927,35 @@ func (g *JSGen) Stmt(depth int) string {
 		if g.F.Switch {
 			g.stat("switch")
 			var sb strings.Builder
-			sb.WriteString("switch (" + e() + ") {\n")
+			// small discriminants so that cases actually match; default may come first or in the middle,
+			// clauses may fall through (no break)
+			disc := e()
+			if r.Bool() {
+				disc = []string{"1", "2", "\"a\"", "p(" + fmt.Sprint(g.tag()) + ", 2)", "0", "-0", "NaN"}[r.Intn(7)]
+			}
+			sb.WriteString("switch (" + disc + ") {\n")
 			n := 1 + r.Intn(3)
+			defaultAt := -1
+			if r.Chance(2, 3) {
+				defaultAt = r.Intn(n)
+			}
 			g.push(false)
 			for i := 0; i < n; i++ {
-				if i == n-1 && r.Bool() {
+				if i == defaultAt {
 					sb.WriteString("default:\n")
+				} else if r.Bool() {
+					sb.WriteString("case " + []string{"1", "2", "\"a\"", "0", "NaN", "\"2\""}[r.Intn(6)] + ":\n")
 				} else {
 					sb.WriteString("case " + e() + ":\n")
 				}
-				sb.WriteString(g.probe(e()) + ";\n")
-				if r.Chance(2, 3) {
+				switch r.Intn(4) {
+				case 0:
+				case 1:
+					sb.WriteString(g.probe(e()) + ";\n" + g.probe(g.literal()) + ";\n")
+				default:
+					sb.WriteString(g.probe(e()) + ";\n")
+				}
+				if r.Chance(1, 2) {
 					sb.WriteString("break;\n")
 				}
 			}
@@ -945,8 +1004,11 @@ func (g *JSGen) Stmt(depth int) string {
 		case 1:
 			out += g.probe(call) + ";\n"
 		case 3:
+			// the asynchronous chain is started by the LAST statement of the program: where the first
+			// suspension happens differs between native and lowered code (microtask turns: documented
+			// exclusion), so no synchronous code may follow the kick-off
 			t := g.tag()
-			out += fmt.Sprintf("%s.then(v => p(%d, \"resolved\", v), e => p(%d, \"rejected\", e));\n", call, t, t)
+			g.deferred = append(g.deferred, fmt.Sprintf("%s.then(v => p(%d, \"resolved\", v), e => p(%d, \"rejected\", e));\n", call, t, t))
 		case 4:
 			if g.F.Spread {
 				out += g.probe("[..."+call+"]") + ";\n"
@@ -1078,7 +1140,8 @@ func (g *JSGen) Stmt(depth int) string {
 			g.declare(jsVar{name: n, kind: 9})
 			t := g.tag()
 			body := g.funcBody(nil, depth, true, true)
-			return fmt.Sprintf("async function* %s() {\n%s}\n(async () => { for await (const v of %s()) p(%d, v); })().then(() => p(%d, \"done\"), e => p(%d, \"rejected\", e));\n", n, body, n, t, t, t)
+			g.deferred = append(g.deferred, fmt.Sprintf("(async () => { for await (const v of %s()) p(%d, v); })().then(() => p(%d, \"done\"), e => p(%d, \"rejected\", e));\n", n, t, t, t))
+			return fmt.Sprintf("async function* %s() {\n%s}\n", n, body)
 		}
 	case 24:
 		// getter-bearing object bound to a variable, then member reads / writes on it
@@ -1099,7 +1162,7 @@ func (g *JSGen) Stmt(depth int) string {
 			s += n + "[" + g.probe(`"z"`) + "] " + []string{"&&=", "||=", "??="}[r.Intn(3)] + " " + e() + ";\n"
 		}
 		if g.F.Exponent && r.Chance(1, 4) {
-			s += n + "[" + g.probe(`"x"`) + "] **= " + e() + ";\n"
+			s += n + "[" + g.probe(`"x"`) + "] **= " + g.probe(e()) + ";\n"
 		}
 		s += g.probe(n) + ";\n"
 		return s
@@ -1150,6 +1213,9 @@ func (g *JSGen) Program(stmts int, depth int) string {
 			s = "try {\n" + s + "} catch (err) { p(" + fmt.Sprint(t) + ", \"caught\", err); }\n"
 		}
 		sb.WriteString(s)
+	}
+	for _, d := range g.deferred {
+		sb.WriteString(d)
 	}
 	return sb.String()
 }
